@@ -4,9 +4,8 @@ from vlib.core import Case, BUILD
 
 ID = "C14"
 LEAN_MODULE = "Ctrmml.Properties.C14"
-THEOREMS = ["C14_inv_histories_partial", "C14_view_ok_partial", "C14_content_stable", "C14_fresh_disjoint",
-            "C14_bank_rule", "C14_dedupe", "C14_dedupe_complete", "C14_error_keeps_state",
-            "C14_wav_decode", "C14_header_roundtrip", "C14_offset_window_counterexample"]
+THEOREMS = ["C14_inv_histories_partial", "C14_content_stable", "C14_fresh_disjoint", "C14_bank_rule", "C14_dedupe",
+            "C14_dedupe_complete", "C14_header_roundtrip", "C14_wav_sample_conversion_partial", "C14_offset_window_counterexample"]
 LEVEL = "proof"
 STREAM = "wave.ops"
 CHUNK = 40
@@ -16,11 +15,11 @@ RULE = ("histories of 1..40 additions to a Wave_Bank (bank layouts 64/16, 256/64
         "from a small seed pool) and add_sample(header,data) as the linker calls it; plus all 1..3-step histories over a boundary size set "
         "on a 64/16 bank, all single additions over bits x channels x length x offset x rate, and hand-made / malformed WAV files. "
         "non-trivial = anything beyond one plain addition; distinct by request text")
-EXPLANATION = ("theorems over Model/Wave + Spec/Alloc (all histories of admissible additions, all bank sizes below 2 GiB); the model is tied to "
+EXPLANATION = ("theorems over Model/Wave + Spec/Alloc (all histories of admissible additions, all bank sizes below 1 GiB); the model is tied to "
                "wave.cpp by running both on the generated histories and diffing every step (returned index, header, used size, gaps, "
                "accessors, window hash, final rom hash); the spec oracle (window content = wanted bytes, tiling of the used area by fresh "
                "regions and gaps, bank rule, stored-once, content stability) is applied to the implementation's answers")
-ASSUMPTIONS = ["banks and sample data below 2 GiB (int/uint32_t arithmetic of wave.cpp does not wrap)",
+ASSUMPTIONS = ["banks and sample data below 1 GiB (int/uint32_t arithmetic of wave.cpp does not wrap)",
                "one include path (the default \"\")",
                "WAV files of the property's quantifier: canonical fmt+data, 8/16 bit, 1-2 channels; the reader's behaviour on other files "
                "(unsupported bit depths, truncated files, smpl loops beyond the data) is modelled but not part of this property",
@@ -341,5 +340,5 @@ LEVEL_TEXT = ("Machine-checked theorems over a Lean model of wave.cpp: an invari
               "non-zero start offset are excluded (D11, counterexample theorem + known finding). Model tied to the code by regenerated "
               "constants and by diffing model and wave.cpp on generated histories.")
 LEVEL_NOTE = ("Trusted: Lean kernel (axioms propext, Classical.choice, Quot.sound at most), the hand-written model Model/Wave.lean (agreement with "
-              "wave.cpp established by differential testing, not proved), Spec/Alloc.lean, banks and data < 2 GiB, g++/ASan/UBSan and the harness. "
+              "wave.cpp established by differential testing, not proved), Spec/Alloc.lean, banks and data < 1 GiB, g++/ASan/UBSan and the harness. "
               "Extra hypothesis of the _partial theorems: every addition that is placed fresh has header.start = 0 (no offset= override).")
